@@ -157,7 +157,7 @@ def all_modes():
 
 
 ENTRIES = ['run', 'call', 'evaluate', 'import', 'run-code']
-ENVS = ['plain', 'outer-trace', 'outer-patchers', 'before-and-after-code', 'time-module-blocked', 'time-module-replaced', 'html-formatter', 'text-formatter',
+ENVS = ['plain', 'outer-trace', 'outer-patchers', 'before-and-after-code', 'time-module-blocked', 'time-module-replaced', 'html-formatter', 'text-formatter', 'in-a-later-section',
         'failpoint-traceback', 'failpoint-feedback']
 
 
@@ -470,6 +470,9 @@ def drive(sandbox, entry, case):
     raise ValueError(entry)
 
 
+SECTION_PROLOGUE = 'opening = 1\nprint(opening)\n\n'
+
+
 def execute_case(ctx, which, case, state=None):
     """case: {'mode':..., 'body':..., 'kind':..., 'entry':..., 'tracer':..., 'threaded':bool, 'position': 'first'|'after-failure'|'after-ok'}"""
     mode, entry, tracer, threaded = case['mode'], case['entry'], case.get('tracer', 'none'), case.get('threaded', False)
@@ -482,12 +485,30 @@ def execute_case(ctx, which, case, state=None):
     case = dict(case)
     case['inputs'] = inputs
     case['mode_body'] = case['body']
+    in_section = case.get('env') == 'in-a-later-section' and entry in ('run', 'call', 'evaluate')
+    sandbox_files = files
+    if in_section:
+        # the student's file is the part after the first marker of a sectioned submission: what the tools report refers to the
+        # lines of the whole file
+        sandbox_files = dict(files)
+        sandbox_files['answer.py'] = SECTION_PROLOGUE + '##### Part 1\n' + files['answer.py']
+        files = dict(files)
+        files['answer.py'] = '\n' + files['answer.py']        # the section's own text starts with the marker line's end
+        case['line_shift'] = SECTION_PROLOGUE.count('\n')
     try:
-        sandbox, report = new_sandbox(files, tracer, threaded, allowed_time=0.15 if kind == 'timeout' else 20)
+        sandbox, report = new_sandbox(sandbox_files, tracer, threaded, allowed_time=0.15 if kind == 'timeout' else 20)
     except ImportError:
         ctx.count('tracer_unavailable')
         return
     from pedal.sandbox import commands as sbx
+    if in_section:
+        from pedal.source import separate_into_sections, next_section
+        separate_into_sections(independent=True)
+        next_section()
+        if report.submission.main_code != files['answer.py']:
+            ctx.count('section_presentation_not_applicable')
+            return
+        ctx.count('cells_in_a_later_section')
     key_tail = '%s|%s' % (entry, 'threaded' if threaded else 'direct')
     # ---- history before the measured execution ---------------------------------------------------------
     pos = case.get('position', 'first')
@@ -665,6 +686,9 @@ def _measured(ctx, which, case, sandbox, report, files, inputs, n_rt_before):
             ctx.violation('C04|feedback-names-other-class|%s|%s' % (mode_family(mode), key_tail), strip(case),
                           'feedback exception_name=%r title=%r, reference %s' % (name, fb.title, want_cls))
         want_line = ref.line
+        shift = case.get('line_shift', 0)       # lines of the whole file before the section that is the student's file here
+        if want_line is not None and ref.innermost_file == 'answer.py':
+            want_line += shift
         if kind == 'blocked':
             want_line = None        # raised inside pedal's replacement, not on a student line
             ctx.count('line_not_judged_blocked_feature')
@@ -674,18 +698,19 @@ def _measured(ctx, which, case, sandbox, report, files, inputs, n_rt_before):
             want_line = None
             tb = traceback.extract_tb(exc.__traceback__) if isinstance(exc, BaseException) else []
             if tb and tb[-1].filename in STUDENT_FILES:
-                want_line = tb[-1].lineno
+                want_line = tb[-1].lineno + (shift if tb[-1].filename == 'answer.py' else 0)
         if kind == 'compile' and entry in ('run', 'call', 'evaluate') and isinstance(ref.exc, SyntaxError) \
                 and ref.exc.filename in STUDENT_FILES and ref.exc.lineno is not None:
             # the student's own file does not compile: the failure is on the line the SyntaxError names - a location
             # that is a line number of one of pedal's own files is not "the student's own line"
             got_line = getattr(fb.location, 'line', None)
             ctx.count('compile_failure_lines_compared')
-            n_student_lines = files['answer.py'].count('\n') + 1
-            if got_line is not None and got_line != ref.exc.lineno:
+            n_student_lines = files['answer.py'].count('\n') + 1 + shift
+            named = ref.exc.lineno + (shift if ref.exc.filename == 'answer.py' else 0)
+            if got_line is not None and got_line != named:
                 ctx.violation('C04|compile-failure-located-%s|%s' % ('outside-the-student-file' if got_line > n_student_lines else 'on-another-line', key_tail), strip(case),
-                              'SyntaxError names %s line %r; the file has %d lines; feedback line %r' % (
-                                  ref.exc.filename, ref.exc.lineno, n_student_lines, got_line))
+                              'SyntaxError names %s line %r (of the whole file: %r); the file has %d lines; feedback line %r' % (
+                                  ref.exc.filename, ref.exc.lineno, named, n_student_lines, got_line))
         if want_line is not None:
             got_line = getattr(fb.location, 'line', None)
             ctx.count('lines_compared')
@@ -760,7 +785,7 @@ def case_matrix(ctx, which):
                     if m['kind'] == 'timeout' and (not threaded or which != 'C05'):
                         continue        # only a threaded execution has a time limit (and only C05 looks at what is left behind)
                     for pos in ('first', 'after-failure', 'after-ok', 'after-clear_context', 'the-same-execution-before'):
-                        for env in (ENVS if which == "C05" else ENVS[:8]):
+                        for env in (ENVS if which == "C05" else ENVS[:9]):
                             if env.startswith('failpoint') and m['kind'] in ('ok',):
                                 continue
                             c = dict(m)
